@@ -1,0 +1,43 @@
+//go:build verif
+
+// Package verifhook provides build-tagged seams for runtime verification.
+// With the `verif` build tag the calls are forwarded to handlers installed by
+// the verification harness; with no handler installed they do nothing.
+package verifhook
+
+import "sync/atomic"
+
+// Handler receives hook calls. Any field may be nil.
+type Handler struct {
+	Yield func(point string)
+	Pause func(point string)
+	Note  func(kind string, a, b int64)
+}
+
+var current atomic.Pointer[Handler]
+
+// Install replaces the handler (nil removes it) and returns the previous one.
+func Install(h *Handler) *Handler { return current.Swap(h) }
+
+// Yield marks a point where another goroutine may be scheduled; the caller
+// may hold locks.
+func Yield(point string) {
+	if h := current.Load(); h != nil && h.Yield != nil {
+		h.Yield(point)
+	}
+}
+
+// Pause marks a point where the caller holds no lock of its package and may
+// be delayed.
+func Pause(point string) {
+	if h := current.Load(); h != nil && h.Pause != nil {
+		h.Pause(point)
+	}
+}
+
+// Note reports a state transition or counter to the installed monitor.
+func Note(kind string, a, b int64) {
+	if h := current.Load(); h != nil && h.Note != nil {
+		h.Note(kind, a, b)
+	}
+}
